@@ -49,20 +49,20 @@ OfferedKind(c, saved, offer) == IF Sent(c, saved, offer) THEN saved.kind ELSE "n
 TicketExt(c, ok) == c.kind = "go" \/ ok = "ticket" \/ (ok # "sid" /\ ~c.noticket)
 
 \* ------------------------------------------------------------------ full handshake (Layer P and M)
-FullP(c, e) ==
-  LET a == Allowed(NegCl(c), NegSv(e)) IN
+\* (a = Allowed(NegCl(c), NegSv(e)) and m = Mech(NegCl(c), NegSv(e)) are passed in: evaluated once per step)
+FullPa(a, c, e) ==
   IF a.refuse # "must" /\ e.auth = "require" /\ ~c.cert
   THEN [refuse |-> "must", why |-> "clientcert", vers |-> 0, suites |-> {}, alpn |-> {}]
   ELSE a
-FullM(c, e) ==
-  LET m == Mech(NegCl(c), NegSv(e)) IN
+FullMm(m, c, e) ==
   IF m.done /\ e.auth = "require" /\ ~c.cert THEN Refuse("bad_certificate", "server") ELSE m
+FullP(c, e) == FullPa(Allowed(NegCl(c), NegSv(e)), c, e)
+FullM(c, e) == FullMm(Mech(NegCl(c), NegSv(e)), c, e)
 \* the full handshake leaves a client certificate with the session
 CertGiven(c, e) == e.auth # "none" /\ c.cert
 
 \* ------------------------------------------------------------------ Layer P: when may an offer be honoured
-WhyNot(c, e, saved, offer, tamper) ==
-  LET a == Allowed(NegCl(c), NegSv(e)) IN
+WhyNotA(a, c, e, saved, offer, tamper) ==
   IF ~Sent(c, saved, offer) THEN "nothing-offered"
   ELSE IF Eff(saved, tamper) # "none" THEN "tampered"
   ELSE IF saved.kind = "ticket" /\ ~e.tickets THEN "tickets-disabled"
@@ -74,34 +74,34 @@ WhyNot(c, e, saved, offer, tamper) ==
   ELSE IF saved.suite \notin Range(e.suites) THEN "suite-not-enabled"
   ELSE IF e.auth = "require" /\ ~saved.cert THEN "clientauth"
   ELSE ""
+WhyNot(c, e, saved, offer, tamper) == WhyNotA(Allowed(NegCl(c), NegSv(e)), c, e, saved, offer, tamper)
 MayResume(c, e, saved, offer, tamper) == WhyNot(c, e, saved, offer, tamper) = ""
 
 \* ------------------------------------------------------------------ Layer M
-MechResume(c, e, saved, offer, tamper) ==
-  /\ MayResume(c, e, saved, offer, tamper)
-  /\ ~(saved.cert /\ e.auth = "none")          \* checkForResumption: sessionHasClientCerts && NoClientCert
+\* checkForResumption additionally declines when the session has a client certificate and policy is "none"
+MechDeclines(e, saved) == saved.cert /\ e.auth = "none"
+MechResume(c, e, saved, offer, tamper) == MayResume(c, e, saved, offer, tamper) /\ ~MechDeclines(e, saved)
 
-\* session the client holds after the connection
-SavedAfter(c, e, saved, offer, tamper, n) ==
-  LET resumed == MechResume(c, e, saved, offer, tamper)
-      m == FullM(c, e)
-      ok == OfferedKind(c, saved, offer)
+\* session the client holds after the connection (res = resumed, fm = full-handshake outcome)
+SavedAfterR(res, fm, c, e, saved, offer, tamper, n) ==
+  LET ok == OfferedKind(c, saved, offer)
       base == IF ok = "sid" /\ KillsEntry(Eff(saved, tamper)) THEN NoSess ELSE saved
-  IN IF resumed \/ ~m.done THEN base
+  IN IF res \/ ~fm.done THEN base
      ELSE IF TicketExt(c, ok) /\ e.tickets
-          THEN [kind |-> "ticket", key |-> e.key, vers |-> m.vers, suite |-> m.suite, cert |-> CertGiven(c, e), from |-> n]
+          THEN [kind |-> "ticket", key |-> e.key, vers |-> fm.vers, suite |-> fm.suite, cert |-> CertGiven(c, e), from |-> n]
      ELSE IF e.cache # 0 /\ c.kind = "raw"
-          THEN [kind |-> "sid", key |-> e.cache, vers |-> m.vers, suite |-> m.suite, cert |-> CertGiven(c, e), from |-> n]
+          THEN [kind |-> "sid", key |-> e.cache, vers |-> fm.vers, suite |-> fm.suite, cert |-> CertGiven(c, e), from |-> n]
      ELSE base
 
 \* what one connection step yields: expectation records (printed by TicketGen) and the next saved session
 ConnOut(c, e, saved, offer, tamper, n) ==
-  LET may == MayResume(c, e, saved, offer, tamper)
-      res == MechResume(c, e, saved, offer, tamper)
-      fp == FullP(c, e)
-      fm == FullM(c, e)
-  IN [expP |-> [resume |-> IF may THEN "may" ELSE "no",
-                whynot |-> WhyNot(c, e, saved, offer, tamper),
+  LET a == Allowed(NegCl(c), NegSv(e))
+      fp == FullPa(a, c, e)
+      fm == FullMm(Mech(NegCl(c), NegSv(e)), c, e)
+      why == WhyNotA(a, c, e, saved, offer, tamper)
+      res == why = "" /\ ~MechDeclines(e, saved)
+  IN [expP |-> [resume |-> IF why = "" THEN "may" ELSE "no",
+                whynot |-> why,
                 sess |-> saved,
                 sent |-> Sent(c, saved, offer),
                 full |-> fp,
@@ -112,7 +112,7 @@ ConnOut(c, e, saved, offer, tamper, n) ==
                 suite |-> IF res THEN saved.suite ELSE fm.suite,
                 peer |-> IF res THEN saved.cert ELSE (fm.done /\ CertGiven(c, e)),
                 alert |-> IF res THEN "" ELSE fm.alert,
-                saved |-> SavedAfter(c, e, saved, offer, tamper, n)]]
+                saved |-> SavedAfterR(res, fm, c, e, saved, offer, tamper, n)]]
 
 \* ------------------------------------------------------------------ obligations (checked by TicketMC on every step)
 StepOK(c, e, saved, offer, tamper) ==
